@@ -441,7 +441,9 @@ FORMULAS = [('x^2+1', '1+x*x'), ('2*x', 'x+x'), ('x*y', 'y*x'), ('x+y', 'y+x'), 
             ('x/2', '0.5*x'), ('y^2', 'y*y'), ('x-y', '-y+x'), ('cos(y)', 'cos(-y)'), ('x^3', 'x*x*x'), ('y+1', '1+y')]
 FORMULA_WRONG = ['x+7', 'y-10', '0', 'x*y*5+1']
 GRADES = [1, 1, 1.0, 0.5, 0.45, 0.3333, 0.1, 0.75, 1 / 3, 0.999, 0, 0.0]
-MSGS = ['', '', '', 'Meow!', 'hm', 'Good enough!\nReally', '50% here']
+MSGS = ['', '', '', 'Meow!', 'hm', 'Good enough!\nReally', '50% here',
+        # feedback with braces and format-like fields (MathJax, set notation): it is text, not a template
+        'Half: \\(\\frac{1}{2}\\)', 'the set {a, b}', 'see {0} and {1}', 'a } stray { brace', '100% {:.0%}']
 
 
 def leaf_grader(kind, extra=None):
